@@ -24,6 +24,9 @@ import CffVerif.Gen.Accept
 import CffVerif.Gen.Denote
 import CffVerif.Gen.Parallel
 import CffVerif.Text.Hoist
+import CffVerif.Sched.Prompt
+import CffVerif.Sched.WorkConsCore
+import CffVerif.Gen.Complete
 
 namespace Sched
 
@@ -94,7 +97,47 @@ def defaultConc (gomaxprocs : Nat) : Nat := if gomaxprocs < 4 then 4 else gomaxp
 theorem C03_default (g : Nat) : defaultConc g = max g 4 := by
   unfold defaultConc; split <;> omega
 
+/-- **C03 "capacity not lost".** If a job is ready, fewer than `N` bodies are running, the context
+    is live, the front ready job is valid, and (fail-fast) nothing has failed so far, then the
+    scheduler on its own — by loop and worker steps only: no running body has to finish, no caller
+    action, no tick — gets one more body running.  In ContinueOnError mode this holds after any
+    number of failed or Goexit-ed jobs (the worker slot is restored by respawn).  The fail-fast
+    premise is needed: with a failing result in flight the loop is legitimately shutting down
+    (illustrated by a `decide`d example in Sched/WorkCons.lean). -/
+theorem C03_work_conserving (c : Cfg) (hw : c.wiring = Wiring.std) (hwf : WfCfg c) (acts : List Act) (s : State)
+    (hr : run c (init c) acts = some s)
+    (hsel : s.loop.phase = .select) (hready : s.loop.ready ≠ [])
+    (hfree : (s.ws.filter W.isRunning).length < c.N)
+    (hlive : s.cancelled = false)
+    (hvalid : ∀ j, s.loop.ready.head? = some j → (Loop.job s.loop j).invalid = false)
+    (hnofail : c.coe = true ∨ ∀ j o, Ev.ended j o ∈ s.log → o = .ok) :
+    ∃ (more : List Act) (s' : State), (∀ a ∈ more, a.isInternal = true) ∧ run c s more = some s' ∧
+      (s.ws.filter W.isRunning).length < (s'.ws.filter W.isRunning).length := by
+  have e : W.isRunning = W.isRun := by funext x; cases x <;> rfl
+  simp only [← List.countP_eq_length_filter, e] at hfree ⊢
+  exact work_conserving_core c hw hwf acts s hr hsel hready hfree hlive hvalid hnofail
+
 /-! ### C09 — cancellation -/
+
+/-- **C09 "returns at once".** From every reachable state in which the context is cancelled and
+    `Wait` has not returned, the caller can complete every remaining `Enqueue` and return from
+    `Wait` by steps none of which is the end of a running job body: it never has to wait for a
+    running task (pending Enqueues are absorbed by the loop or by its drain; `Wait` leaves through
+    its `ctx.Done()` arm). -/
+theorem C09_prompt (c : Cfg) (hw : c.wiring = Wiring.std) (hwf : WfCfg c) (acts : List Act) (s : State)
+    (hr : run c (init c) acts = some s) (hc : s.cancelled = true) (hnr : s.caller.ret = none) :
+    ∃ (more : List Act) (s' : State), (∀ a ∈ more, a.isWorkerEnd = false) ∧ run c s more = some s' ∧
+      s'.caller.ret.isSome = true ∧ (s.caller.closed = false → s'.caller.sent = c.deps.length) :=
+  prompt_return c hw hwf acts s hr hc hnr
+
+/-- Without `Wait`'s `ctx.Done()` arm the caller of a cancelled flow is stuck behind a running body:
+    the only enabled actions are the body's end and nothing the caller can do (the flag matters). -/
+example :
+    let c : Cfg := { N := 1, coe := false, emit := false, deps := [[]],
+                     wiring := { waitSelectsCtx := false } }
+    ∃ s, run c (init c) [.callerSend, .loopEnq, .loopDispatch 0, .workerDecide 0, .callerClose, .loopEnqClosed, .cancel] = some s
+      ∧ step c s .callerRetCtx = none ∧ step c s .callerRetFin = none ∧ s.ws = [.running 0] := by
+  decide
 
 /-- No job is started after the context was cancelled, in either error mode:
     in every log, every `started` event precedes every `cancelled` event. -/
@@ -676,6 +719,23 @@ theorem C10_map_end (base : Nat) (c : Coll) (h : c.hasEnd = true) :
     type provided by two functions or twice by one; every task/predicate output consumed (by
     Results, another function, or it is an Invoke sentinel); and no cycle found by the search. -/
 theorem C14_accept_facts (p : Prog) (h : validateFlow p = []) : AcceptFacts p := accept_facts p h
+
+/-- **C14 soundness and completeness.** The validation accepts a flow **iff** it is well-formed in
+    the declarative sense of the property: Params distinct; output-less ⇔ Invoke(true); FallbackWith
+    only on error-returning tasks; at most one provider per type (two functions, or one function
+    twice); no Params type also provided by a task; every consumed type (task input, predicate
+    input, Results target) has a provider or is a Param; every Param and every task/predicate
+    output is consumed; the dependency relation through tasks and predicates is acyclic.
+    `WellFormed` mentions neither the breadth-first walk, nor the memoised cycle search, nor fuel.
+    `SmallTypes` is the encoding side condition (user types < 1000; sentinels are 1000+k, 2000+k). -/
+theorem C14_sound_complete (p : Prog) (hs : SmallTypes p) (hd : DistinctIds p) :
+    validateFlow p = [] ↔ WellFormed p := validateFlow_iff_wellFormed p hs hd
+
+/-- **C14 cycle search, completeness.** The memoised depth-first search reports a cycle only if
+    there is one: on an acyclic function graph it answers "no cycle" (with `C14_accept_acyclic`:
+    exactly when there is none), and the fuel of the model's recursion is never exhausted. -/
+theorem C14_cycle_search_complete (p : Prog) (h : Acyclic p) : hasCycle p = false :=
+  hasCycle_false_of_acyclic p h
 
 /-- **C14 cycles.** Every accepted flow is acyclic (through tasks and predicates): the memoised
     depth-first search of internal/cycle.go is sound. -/
